@@ -3,6 +3,7 @@ package c10
 import (
 	"context"
 	"fmt"
+	"strings"
 
 	"github.com/bufbuild/bufverif/internal/enum"
 )
@@ -48,7 +49,7 @@ func (ck *checker) familyPlants(maxN int) {
 						}
 						vectors := [][]Kind{uniform(KLocal), uniform(KNamed), with(KRemote, into, KNamed), with(KBoth, from, KNamed)}
 						if n == 4 {
-							vectors = vectors[:2]
+							vectors = vectors[1:2]
 						}
 						for _, ks := range vectors {
 							s := newSpec(g, ks, v2)
@@ -65,7 +66,7 @@ func (ck *checker) familyPlants(maxN int) {
 				for in := 0; in < n; in++ {
 					vectors := [][]Kind{uniform(KLocal), uniform(KNamed), with(KBoth, in, KNamed)}
 					if n == 4 {
-						vectors = vectors[:2]
+						vectors = vectors[1:2]
 					}
 					for _, ks := range vectors {
 						s := newSpec(g, ks, v2)
@@ -83,6 +84,9 @@ func (ck *checker) familyPlants(maxN int) {
 	r.Set("plant_specs", len(items))
 	ctx := context.Background()
 	r.ParallelFor(len(items), 0, func(idx int) {
+		if ck.done() {
+			return
+		}
 		s := items[idx].s
 		b, err := build(ctx, s)
 		if err != nil {
@@ -92,7 +96,7 @@ func (ck *checker) familyPlants(maxN int) {
 		ts := []Target{{Kind: "all"}}
 		for _, i := range s.locals() {
 			ts = append(ts, Target{"dir", i})
-			if s.G.N <= 3 {
+			if s.G.N <= 3 && !r.Quick() {
 				ts = append(ts, Target{"file", i})
 			}
 		}
@@ -167,7 +171,10 @@ func (ck *checker) checkPlant(ctx context.Context, b *Built, t Target) {
 			ck.violate(label+"/dag/wrong-error/"+cls, "ModuleSetToDAG: "+err.Error(), b, t, Case{Error: err.Error()})
 		}
 	}
-	// image and ls-files
+	// image and ls-files (n = 4: only for the workspace target, to bound the number of compilations)
+	if s.G.N >= 4 && t.Kind != "all" {
+		return
+	}
 	if !s.needsFile(t, neededFile) {
 		ck.c.dupNoDemand.Add(1)
 		return
@@ -188,7 +195,10 @@ func (ck *checker) checkPlant(ctx context.Context, b *Built, t Target) {
 		ck.violate(label+"/image/no-error", "the image was built although a needed path is ambiguous", b, t, Case{Observed: gotImg})
 	} else {
 		cls := errClass(err)
-		ok := cls == want || (!dup && cls == "annotations")
+		// when the path is only needed as an import of a compiled file, the compiler reports the
+		// resolver's error as a file annotation: still an error naming the ambiguity
+		ok := cls == want || (!dup && cls == "annotations") ||
+			(dup && cls == "annotations" && strings.Contains(err.Error(), "is contained in multiple modules"))
 		if !ok {
 			ck.violate(label+"/image/wrong-error/"+cls, "image build: "+err.Error(), b, t, Case{Error: err.Error()})
 		}
